@@ -14,6 +14,7 @@
 
 //! Elixir Date, Time, and DateTime type support.
 
+use crate::fields::{integer, integer_field};
 use erltf::{Atom, OwnedTerm};
 use serde::{Deserialize, Serialize};
 use std::collections::BTreeMap;
@@ -87,11 +88,9 @@ impl ElixirDate {
         }
 
         let map = term.as_map()?;
-        let year = map.get(&OwnedTerm::Atom(Atom::new("year")))?.as_integer()? as i32;
-        let month = map
-            .get(&OwnedTerm::Atom(Atom::new("month")))?
-            .as_integer()? as u8;
-        let day = map.get(&OwnedTerm::Atom(Atom::new("day")))?.as_integer()? as u8;
+        let year = integer_field(map, "year")?;
+        let month = integer_field(map, "month")?;
+        let day = integer_field(map, "day")?;
 
         Some(Self { year, month, day })
     }
@@ -215,18 +214,14 @@ impl ElixirTime {
         }
 
         let map = term.as_map()?;
-        let hour = map.get(&OwnedTerm::Atom(Atom::new("hour")))?.as_integer()? as u8;
-        let minute = map
-            .get(&OwnedTerm::Atom(Atom::new("minute")))?
-            .as_integer()? as u8;
-        let second = map
-            .get(&OwnedTerm::Atom(Atom::new("second")))?
-            .as_integer()? as u8;
+        let hour = integer_field(map, "hour")?;
+        let minute = integer_field(map, "minute")?;
+        let second = integer_field(map, "second")?;
 
         let (microsecond_value, microsecond_precision) =
             if let Some(us) = map.get(&OwnedTerm::Atom(Atom::new("microsecond"))) {
                 if let Some((val, prec)) = us.as_2_tuple() {
-                    (val.as_integer()? as u32, prec.as_integer()? as u8)
+                    (integer(val)?, integer(prec)?)
                 } else {
                     (0, 0)
                 }
@@ -409,23 +404,17 @@ impl ElixirNaiveDateTime {
         }
 
         let map = term.as_map()?;
-        let year = map.get(&OwnedTerm::Atom(Atom::new("year")))?.as_integer()? as i32;
-        let month = map
-            .get(&OwnedTerm::Atom(Atom::new("month")))?
-            .as_integer()? as u8;
-        let day = map.get(&OwnedTerm::Atom(Atom::new("day")))?.as_integer()? as u8;
-        let hour = map.get(&OwnedTerm::Atom(Atom::new("hour")))?.as_integer()? as u8;
-        let minute = map
-            .get(&OwnedTerm::Atom(Atom::new("minute")))?
-            .as_integer()? as u8;
-        let second = map
-            .get(&OwnedTerm::Atom(Atom::new("second")))?
-            .as_integer()? as u8;
+        let year = integer_field(map, "year")?;
+        let month = integer_field(map, "month")?;
+        let day = integer_field(map, "day")?;
+        let hour = integer_field(map, "hour")?;
+        let minute = integer_field(map, "minute")?;
+        let second = integer_field(map, "second")?;
 
         let (microsecond_value, microsecond_precision) =
             if let Some(us) = map.get(&OwnedTerm::Atom(Atom::new("microsecond"))) {
                 if let Some((val, prec)) = us.as_2_tuple() {
-                    (val.as_integer()? as u32, prec.as_integer()? as u8)
+                    (integer(val)?, integer(prec)?)
                 } else {
                     (0, 0)
                 }
@@ -671,23 +660,17 @@ impl ElixirDateTime {
         }
 
         let map = term.as_map()?;
-        let year = map.get(&OwnedTerm::Atom(Atom::new("year")))?.as_integer()? as i32;
-        let month = map
-            .get(&OwnedTerm::Atom(Atom::new("month")))?
-            .as_integer()? as u8;
-        let day = map.get(&OwnedTerm::Atom(Atom::new("day")))?.as_integer()? as u8;
-        let hour = map.get(&OwnedTerm::Atom(Atom::new("hour")))?.as_integer()? as u8;
-        let minute = map
-            .get(&OwnedTerm::Atom(Atom::new("minute")))?
-            .as_integer()? as u8;
-        let second = map
-            .get(&OwnedTerm::Atom(Atom::new("second")))?
-            .as_integer()? as u8;
+        let year = integer_field(map, "year")?;
+        let month = integer_field(map, "month")?;
+        let day = integer_field(map, "day")?;
+        let hour = integer_field(map, "hour")?;
+        let minute = integer_field(map, "minute")?;
+        let second = integer_field(map, "second")?;
 
         let (microsecond_value, microsecond_precision) =
             if let Some(us) = map.get(&OwnedTerm::Atom(Atom::new("microsecond"))) {
                 if let Some((val, prec)) = us.as_2_tuple() {
-                    (val.as_integer()? as u32, prec.as_integer()? as u8)
+                    (integer(val)?, integer(prec)?)
                 } else {
                     (0, 0)
                 }
@@ -701,12 +684,8 @@ impl ElixirDateTime {
         let zone_abbr = map
             .get(&OwnedTerm::Atom(Atom::new("zone_abbr")))?
             .as_erlang_string()?;
-        let utc_offset = map
-            .get(&OwnedTerm::Atom(Atom::new("utc_offset")))?
-            .as_integer()? as i32;
-        let std_offset = map
-            .get(&OwnedTerm::Atom(Atom::new("std_offset")))?
-            .as_integer()? as i32;
+        let utc_offset = integer_field(map, "utc_offset")?;
+        let std_offset = integer_field(map, "std_offset")?;
 
         Some(Self {
             year,
